@@ -249,6 +249,49 @@ theorem C14_derived_reads_reference (cmp : Op → A → A → Bool) (enc : A →
     rw [e1, ← hcolsEq]
     cases hsub : a.sub <;> rfl
 
+/-- **The request of a derived object is a function of its derivation chain alone** — not of the heap it was derived
+    in, nor of what else happened in between: it is the text of the pure accumulation of the chain.  Hence the object
+    derived amid any history and the object a FRESH client derives with the same chain (a freshly opened heap, no other
+    events) send the same request, and by `C14_derived_reads_reference` read the same rows. -/
+theorem C14_derived_equals_fresh (enc : A → List Char) (id : Name) (names : List Name)
+    (hidok : NameOk id) (hnames : ∀ k ∈ names, NameOk k)
+    (h h' : Heap) (w : WF h) (w' : WF h') (r r' : Nat) (base : Name) (σ : Sess) (tm tm' : Nat)
+    (hs : specAt h r = some (specOf (openTmpl id names ⟨none, []⟩) (openProxy base σ tm ⟨none, []⟩)))
+    (hs' : specAt h' r' = some (specOf (openTmpl id names ⟨none, []⟩) (openProxy base σ tm' ⟨none, []⟩)))
+    (l : List (List Ev × DStep A))
+    (hok : ChainOk enc names false (l.map (·.2))) :
+    let d := deriveAmid h r (l.map fun x => (x.1, keyOfStep enc [id] (openProxy base σ tm ⟨none, []⟩) x.2))
+    let f := deriveAmid h' r' (l.map fun x => ([], keyOfStep enc [id] (openProxy base σ tm' ⟨none, []⟩) x.2))
+    objQuery d.1 d.2 = objQuery f.1 f.2 ∧
+    objQuery d.1 d.2 = some (specQuery (specOfAcc base id names σ (seenAfter false (l.map (·.2)))
+      (((l.map (·.2)).map toCOp).foldl (accStep enc id) (openAcc id names ⟨none, []⟩)))) := by
+  intro d f
+  let chain := l.map (·.2)
+  let a0 : Acc := openAcc id names ⟨none, []⟩
+  have key : ∀ (g : Heap) (wg : WF g) (q : Nat) (t : Nat) (ll : List (List Ev × DStep A)) (hll : ll.map (·.2) = chain)
+      (hg : specAt g q = some (specOf (openTmpl id names ⟨none, []⟩) (openProxy base σ t ⟨none, []⟩))),
+      objQuery (deriveAmid g q (ll.map fun x => (x.1, keyOfStep enc [id] (openProxy base σ t ⟨none, []⟩) x.2))).1
+          (deriveAmid g q (ll.map fun x => (x.1, keyOfStep enc [id] (openProxy base σ t ⟨none, []⟩) x.2))).2
+        = some (specQuery (specOfAcc base id names σ (seenAfter false chain) ((chain.map toCOp).foldl (accStep enc id) a0))) := by
+    intro g wg q t ll hll hg
+    obtain ⟨hchain, _⟩ := chain_spec enc base id names σ hidok hnames (openProxy base σ t ⟨none, []⟩) chain false a0
+      hok (by intro e; cases e)
+    have hsnd : (ll.map fun x => (x.1, keyOfStep enc [id] (openProxy base σ t ⟨none, []⟩) x.2)).map Prod.snd
+        = chain.map (keyOfStep enc [id] (openProxy base σ t ⟨none, []⟩)) := by
+      rw [← hll]; simp [List.map_map, Function.comp_def]
+    exact objQuery_of_specAt (deriveAmid_spec g wg q (specOfAcc base id names σ false a0) _ _
+      (by rw [hg, open_spec]; rfl) (by rw [hsnd]; exact hchain))
+  have e1 := key h w r tm l rfl hs
+  have e2 := key h' w' r' tm' (l.map fun x => ([], x.2)) (by simp [chain, List.map_map, Function.comp_def]) hs'
+  have e2' : objQuery f.1 f.2 = some (specQuery (specOfAcc base id names σ (seenAfter false chain)
+      ((chain.map toCOp).foldl (accStep enc id) a0))) := by
+    have : (l.map fun x => (([] : List Ev), keyOfStep enc [id] (openProxy base σ tm' ⟨none, []⟩) x.2))
+        = ((l.map fun x => (([] : List Ev), x.2)).map fun x => (x.1, keyOfStep enc [id] (openProxy base σ tm' ⟨none, []⟩) x.2)) := by
+      simp [List.map_map, Function.comp_def]
+    show objQuery (deriveAmid h' r' _).1 (deriveAmid h' r' _).2 = _
+    rw [this]; exact e2
+  exact ⟨e1.trans e2'.symm, e1⟩
+
 end DerivedReads
 
 /-! ### the tie by translation: the ids and the record range of `seqReq` are what the source writes
